@@ -429,7 +429,10 @@ def stepCmp (ctx : Ctx) (op : CmpOp) (l r : Value) (impl : String) : String :=
   match numExt l, numExt r with
   | some x, some y =>
     let oracle := showOptBool (some (mathCmp op x y))
-    if impl != oracle then s!"JUDGE C08 comparison is {impl}, the numeric order says {oracle}"
+    if impl != oracle then
+      if patternGap ctx op l r && impl == model then
+        s!"KNOWN[C08-pattern-le-ge-mixed] comparison is {impl}, the numeric order says {oracle}"
+      else s!"JUDGE C08 comparison is {impl}, the numeric order says {oracle}"
     else verdict model impl
   | _, _ => verdict model impl
 
@@ -441,21 +444,29 @@ def resBool : Res → String
   | .panic => "panic"
   | .diverge => "abort"
 
-/-- C08 through an expression: paths `w` (`.where`), `h` (`.having`) report kept/dropped, the
-others report the value -/
+/-- C08 through an expression: paths `W` (`.where`), `H` (`.having`), `P` (`.pattern`) report
+kept/dropped, the others (`e`, `f`, `p`, `M` = `.emit`) report the value -/
 def stepCmpx (env : Env) (path : String) (op : CmpOp) (l r : Expr) (impl : String) : String :=
-  let res := eval hw .fixed env (.bin op.toBinOp l r)
-  let filt := path == "w" || path == "h"
-  let model := if filt then (if keeps res then "kept" else "dropped") else resBool res
   let lv := eval hw .fixed env l
   let rv := eval hw .fixed env r
+  let pat := path == "p" || path == "P"
+  -- `.pattern` lambdas go through `eval_pattern_expr` / `eval_binary_op`
+  let res := if pat then lv.bind fun a => rv.bind fun b => patternBinop .fixed op.toBinOp a b
+             else eval hw .fixed env (.bin op.toBinOp l r)
+  let filt := path == "W" || path == "H" || path == "P"
+  -- `.pattern`: the events are dropped only when the matcher has a value other than `true`
+  let kept := if path == "P" then (match res with | .none => true | r => keeps r) else keeps res
+  let model := if filt then (if kept then "kept" else "dropped") else resBool res
   match lv, rv with
   | .val a, .val b =>
     match numExt a, numExt b with
     | some x, some y =>
       let t := mathCmp op x y
       let oracle := if filt then (if t then "kept" else "dropped") else (if t then "T" else "F")
-      if impl != oracle then s!"JUDGE C08 comparison gives {impl}, the numeric order says {oracle}"
+      if impl != oracle then
+        if patternGap (if pat then .pattern else .expr) op a b && impl == model then
+          s!"KNOWN[C08-pattern-le-ge-mixed] comparison gives {impl}, the numeric order says {oracle}"
+        else s!"JUDGE C08 comparison gives {impl}, the numeric order says {oracle}"
       else verdict model impl
     | _, _ => verdict model impl
   | _, _ => verdict model impl
